@@ -32,7 +32,7 @@ def gen_intervals(rng, g, tz_aware=False):
     tz = g.get('tz')
     d = gen.fdelta(g['freq'])
     n = int(rng.integers(1, 6))
-    kind = gen.pick(rng, ['tiling', 'tiling', 'gaps', 'overlap', 'implicit', 'implicit', 'single_noend', 'scalar', 'unsorted_explicit'])
+    kind = gen.pick(rng, ['tiling', 'tiling', 'gaps', 'overlap', 'overlap_far', 'implicit', 'implicit', 'single_noend', 'scalar', 'unsorted_explicit'])
     base = pd.Timestamp(g['start'])
     cuts = sorted(set(int(x) for x in rng.integers(-3, T + 4, n + 1)))
     if len(cuts) < 2:
@@ -58,6 +58,15 @@ def gen_intervals(rng, g, tz_aware=False):
         k = int(rng.integers(1, len(starts)))
         ends = list(ends); ends[k - 1] = ends[k - 1] + d * int(rng.integers(1, 4))
         inp = {'start': starts, 'end': ends, 'values': vals}
+    elif kind == 'overlap_far' and len(starts) > 1:
+        # a correction appended at the END of the list (or put first) that overlaps an interval which is not its neighbour in the list
+        k = int(rng.integers(0, len(starts) - 1)) if rng.random() < 0.7 else int(rng.integers(0, len(starts)))
+        extra = (starts[k], ends[k], float(np.round(rng.normal(5, 3), 2)))
+        if rng.random() < 0.7:
+            inp = {'start': starts + [extra[0]], 'end': list(ends) + [extra[1]], 'values': vals + [extra[2]]}
+        else:
+            k2 = len(starts) - 1
+            inp = {'start': [starts[k2]] + starts, 'end': [ends[k2]] + list(ends), 'values': [extra[2]] + vals}
     elif kind == 'implicit':
         inp = {'start': starts, 'values': vals}
     elif kind == 'unsorted_explicit' and len(starts) > 2:
@@ -137,7 +146,10 @@ def run_case(rng, tier, case):
                     we_in = None if we_in is None else we_in.tz_localize(g['tz']).tz_convert(oz)
                     desc['windows'][-1] += ['aware:' + oz]
                     case.feature('window_zone_aware' + ('' if oz == g['tz'] else '_other_zone'))
-                tg.set_restricted_grid(ws_in, we_in)
+                try:
+                    tg.set_restricted_grid(ws_in, we_in)
+                except Exception as ex:
+                    case.check('restricted.setup_works', False, window=desc['windows'][-1], grid=g, error='%s: %s' % (type(ex).__name__, str(ex)[:160]))
             # coarse restricted grid (aligned and unaligned windows)
             if mode == 'plain' and g['freq'] in COARSER and tg.T >= 2:
                 cf = gen.pick(rng, COARSER[g['freq']])
@@ -149,6 +161,8 @@ def run_case(rng, tier, case):
                 except ValueError as ex:
                     # a coarse interval without any fine point (window narrower than one coarse step): no grid produced
                     case.feature('coarse_empty_interval')
+                except Exception as ex:
+                    case.check('restricted.setup_works', False, window=desc.get('coarse'), grid=g, error='%s: %s' % (type(ex).__name__, str(ex)[:160]))
             # interval data
             inp, ikind = (gen_intervals(rng, g, tz_aware=rng.random() < 0.3) if mode == 'plain' else (None, None))
             if inp is not None:
